@@ -20,6 +20,17 @@ pub broadcast proof fn axiom_vec_index_mut_range<T>(index: core::ops::Range<usiz
         fin@.len() == now@.len(),
         f == o.subrange(0, index.start as int) + fin@ + o.subrange(index.end as int, o.len() as int),
 {}
+
+/// same for a single element: `&mut v[i]` yields old[i]; when the borrow ends the vector is old with element i replaced
+#[verifier::external_body]
+pub broadcast proof fn axiom_vec_index_mut_usize<T>(index: usize, o: Seq<T>, f: Seq<T>, now: &T, fin: &T)
+    requires
+        #[trigger] vec_index_mut_rel::<T, usize, std::alloc::Global>(index, o, f, now, fin),
+        index < o.len(),
+    ensures
+        *now == o[index as int],
+        f == o.update(index as int, *fin),
+{}
 } // mod vec_index_mut_shim
 pub use vec_index_mut_shim::*;
 // ---- end -----------------------------------------------------------------------------------------------------------
